@@ -107,7 +107,16 @@ def gen(S, tier):
         t2 = f.pick(["info", "comment", "error", "b", "question", ""])
         script.insert(f.randint(0, len(script) - 1), [f.pick(["out", "err"]), "<%s>left open by the handler" % t, None])
         script[-1] = ["raise", dict(outcome[1], msg=f.pick(["x </%s> y", "closing </%s> only", "<b>bold</%s>"]) % t2)]
+    closed_err = False
+    if outcome[0] == "return" and f.chance(0.12):
+        if f.chance(0.5):
+            # the handler closes its I/O when it is done and returns normally
+            script.insert(len(script) - 1, ["close_io"])
+        elif not listeners and all(st[0] == "out" for st in script[:-1]):
+            # the error stream is closed before the run starts (`app 2>&-`); nothing is ever written to it
+            closed_err = True
     return {
+        "closed_err": closed_err,
         "app": spec, "path": path, "tail": tail, "exp_args": exp_args, "exp_opts": exp_opts,
         "target_hid": target["hid"], "verbosity": c.pick(["", "", "-v", "-vv", "-vvv"]), "quiet": c.chance(0.1),
         "ansi": c.chance(0.5), "script": script, "listeners": listeners,
@@ -284,6 +293,11 @@ def execute(sc):
             out = RealStreamOutput(SimFile("out", log, encoding=sc["stream_encoding"], strict=False), sc["ansi"])
             err = RealStreamOutput(SimFile("err", log, encoding=sc["stream_encoding"], strict=False), sc["ansi"])
             res.probe("real_stream_" + sc["stream_encoding"])
+        if sc.get("closed_err"):
+            err.close()
+            res.fault("error_stream_closed_before_the_run")
+        if any(st[0] == "close_io" for st in sc["script"]):
+            res.fault("handler_closes_its_io")
         inp = SimInputStream(log, [])
         raised = None
         status = None
